@@ -365,9 +365,137 @@ fn builder_corner_cases(rep: &mut Report) {
     }
 }
 
+/// Packets at the size extremes: the largest Remaining Length the protocol can express (268 435 455),
+/// one beyond it, and (thorough) more than 4 GiB of content, where a length computed in 32 bits wraps.
+/// The builder may refuse; what it accepts must report a size equal to what it serialises and frame it.
+/// Big buffers are never copied for the > 4 GiB cases (sizes are summed over the vectored form).
+fn size_extremes(rep: &mut Report) {
+    use crate::refcodec::{PVal, Prop};
+    const MAX_RL: usize = 268_435_455;
+    let thorough = rep.thorough();
+    let mut cases: Vec<(String, Box<dyn Fn() -> AP>)> = vec![];
+    // PUBLISH: payload chosen so that the Remaining Length is exactly MAX_RL + d
+    for ver in [Ver::V4, Ver::V5] {
+        for d in if thorough { vec![-1i64, 0, 1, 2] } else { vec![0i64, 1] } {
+            let fixed = 2 + 1 + if ver == Ver::V5 { 1 } else { 0 }; // topic "a" (+ Property Length 0)
+            let n = (MAX_RL as i64 + d) as usize - fixed;
+            cases.push((format!("{ver:?} PUBLISH q0 with Remaining Length 268435455{d:+}"), Box::new(move || AP::Publish { ver, dup: false, qos: 0, retain: false, topic: b"a".to_vec(), pid: None, props: vec![], payload: vec![0x55; n] })));
+        }
+    }
+    if thorough {
+        // v3.1.1 SUBACK: n return codes -> Remaining Length 2 + n
+        for d in [0i64, 1] {
+            let n = (MAX_RL as i64 + d) as usize - 2;
+            cases.push((format!("V4 SUBACK with Remaining Length 268435455{d:+}"), Box::new(move || AP::Suback { ver: Ver::V4, pid: 1, props: vec![], codes: vec![0; n] })));
+        }
+        // > 4 GiB: 32768 maximal User Properties (131 075 bytes each) in every v5.0 kind that carries
+        // properties; 65 537 maximal filters in (UN)SUBSCRIBE; 2^32 + 10 payload bytes
+        let big_props = || -> Vec<Prop> { (0..32768).map(|_| Prop { id: 0x26, val: PVal::Pair(vec![b'k'; 65535], vec![b'v'; 65535]) }).collect() };
+        for k in genpk::kinds(Ver::V5, 2, 0) {
+            let base = k.base.clone();
+            let has_props = matches!(base, AP::Connect { .. } | AP::Connack { .. } | AP::Publish { .. } | AP::Ack { .. } | AP::Subscribe { .. } | AP::Suback { .. } | AP::Unsubscribe { .. } | AP::Unsuback { .. } | AP::Disconnect { .. } | AP::Auth { .. });
+            if !has_props {
+                continue;
+            }
+            cases.push((format!("V5 {} with 32768 maximal User Properties (4 295 065 600 bytes)", base.kind_name()), Box::new(move || {
+                let mut a = base.clone();
+                match &mut a {
+                    AP::Connect { props, .. } | AP::Connack { props, .. } | AP::Publish { props, .. } | AP::Subscribe { props, .. } | AP::Suback { props, .. } | AP::Unsubscribe { props, .. } | AP::Unsuback { props, .. } => *props = big_props(),
+                    AP::Ack { props, code, .. } | AP::Disconnect { props, code, .. } | AP::Auth { props, code } => {
+                        if code.is_none() {
+                            *code = Some(0);
+                        }
+                        *props = Some(big_props())
+                    }
+                    _ => {}
+                }
+                a
+            })));
+        }
+        for ver in [Ver::V4, Ver::V5] {
+            cases.push((format!("{ver:?} SUBSCRIBE with 65537 filters of 65535 bytes"), Box::new(move || AP::Subscribe { ver, pid: 1, props: vec![], entries: (0..65537).map(|_| (vec![b'f'; 65535], 0u8)).collect() })));
+            cases.push((format!("{ver:?} UNSUBSCRIBE with 65537 filters of 65535 bytes"), Box::new(move || AP::Unsubscribe { ver, pid: 1, props: vec![], filters: (0..65537).map(|_| vec![b'f'; 65535]).collect() })));
+            cases.push((format!("{ver:?} PUBLISH q0 with a payload of 2^32 + 10 bytes"), Box::new(move || AP::Publish { ver, dup: false, qos: 0, retain: false, topic: b"a".to_vec(), pid: None, props: vec![], payload: vec![0x55; (1usize << 32) + 10] })));
+        }
+    }
+    let (mut n, mut accepted, mut refused) = (0u64, 0u64, 0u64);
+    for (label, mk) in cases {
+        n += 1;
+        let label2 = label.clone();
+        let r = guarded(move || -> Result<bool, String> {
+            let ap = mk();
+            let ver = ap.ver();
+            let built = bridge::build::<u16>(&ap);
+            drop(ap);
+            let pkt = match built {
+                Built::Ok(p) => p,
+                _ => return Ok(false),
+            };
+            let size = pkt.size();
+            let (total, head): (usize, Vec<u8>) = {
+                let bufs = pkt.to_buffers();
+                let total = bufs.iter().map(|b| b.len()).sum();
+                let mut head = vec![];
+                for b in bufs.iter() {
+                    for x in b.iter().take(8usize.saturating_sub(head.len())) {
+                        head.push(*x);
+                    }
+                    if head.len() >= 8 {
+                        break;
+                    }
+                }
+                (total, head)
+            };
+            if size != total {
+                return Err(format!("size() = {size} but the vectored serialisation has {total} bytes"));
+            }
+            // Remaining Length on the wire (reference decoding of the variable byte integer)
+            let (mut rl, mut mult, mut i) = (0usize, 1usize, 1usize);
+            loop {
+                let b = *head.get(i).ok_or("fixed header shorter than its Remaining Length")?;
+                rl += (b & 0x7f) as usize * mult;
+                mult *= 128;
+                i += 1;
+                if b & 0x80 == 0 {
+                    break;
+                }
+                if i > 4 {
+                    return Err("Remaining Length longer than four bytes".into());
+                }
+            }
+            if i + rl != total {
+                return Err(format!("Remaining Length on the wire is {rl} ({i} header bytes) but the serialisation has {total} bytes"));
+            }
+            if total <= 1 + 4 + MAX_RL {
+                let bytes = pkt.to_continuous_buffer();
+                if bytes.len() != total {
+                    return Err(format!("to_continuous_buffer() has {} bytes, the vectored form {total}", bytes.len()));
+                }
+                if let Some(Ok((p2, consumed))) = bridge::parse_body::<u16>(ver, bytes[0] >> 4, bytes[0] & 15, &bytes[i..]) {
+                    if p2 != pkt || consumed != rl {
+                        return Err("parse(serialise(p)) != p at the largest Remaining Length".into());
+                    }
+                }
+            }
+            Ok(true)
+        });
+        match r {
+            Ok(Ok(true)) => accepted += 1,
+            Ok(Ok(false)) => refused += 1,
+            Ok(Err(d)) => rep.violation(Violation { rule: "c02.lengths".into(), sig: format!("c02.lengths|size-extreme|{}", label2.split(" with ").next().unwrap_or("")), detail: format!("[{label2}] the builder accepts the packet but {d}"), config: "codec size extremes".into(), history: vec![json!(label2)] }),
+            Err(m) => rep.violation(Violation { rule: "c02.panic".into(), sig: format!("c02.panic|size-extreme|{}", label2.split(" with ").next().unwrap_or("")), detail: format!("[{label2}] builder / serialiser panicked instead of refusing or producing a consistent packet: {m}"), config: "codec size extremes".into(), history: vec![json!(label2)] }),
+        }
+    }
+    rep.count("c02.size-extreme-cases", n);
+    rep.count("c02.size-extreme-accepted", accepted);
+    rep.count("c02.size-extreme-refused", refused);
+    rep.floor("c02.size-extreme-cases", 4);
+}
+
 pub fn c02(rep: &mut Report) {
     sweep("c02", rep);
     builder_corner_cases(rep);
+    size_extremes(rep);
     rep.assume("every setter of every builder is used at most once per packet; long-length values (>= 16383) are applied to at most two fields at a time; SSO feature builds are exercised by the thorough wrapper through separate harness builds");
 }
 
